@@ -69,7 +69,7 @@ func (o *ExpressionOptimizer) tryReorderBinaryOp(e *BinaryOpExpr) {
 		// product stays far from the int64 limits (an integer and a float
 		// constant, or two large integers, give another result when they
 		// meet each other before they meet the left operand)
-		if leftOpExpr.Op == e.Op && canCombineConstants(leftOpExpr.Right, e.Right, e.Op) {
+		if leftOpExpr.Op == e.Op && canCombineConstants(leftOpExpr.Left, leftOpExpr.Right, e.Right, e.Op) {
 			switch rexpr := leftOpExpr.Right.(type) {
 			case *StringExpr, *NumberExpr, *FloatExpr:
 				// (ANY op VALUE) op VALUE
@@ -98,9 +98,33 @@ func constantTexts(expr Expression) bool {
 	return false
 }
 
-func canCombineConstants(first, second Expression, op Operator) bool {
+// integerValued tells whether expr is known to give an integer on every pair
+func integerValued(expr Expression) bool {
+	switch e := expr.(type) {
+	case *NumberExpr:
+		return true
+	case *FieldReferenceExpr:
+		return integerValued(e.FieldExpr)
+	case *FunctionCallExpr:
+		fname, err := GetFuncNameFromExpr(e)
+		return err == nil && (fname == "int" || fname == "strlen" || fname == "len" || fname == "count")
+	case *BinaryOpExpr:
+		switch e.Op {
+		case Add, Sub, Mul, Div:
+			return integerValued(e.Left) && integerValued(e.Right)
+		}
+	}
+	return false
+}
+
+func canCombineConstants(operand, first, second Expression, op Operator) bool {
 	if constantTexts(first) && constantTexts(second) {
 		return op == Add
+	}
+	// Float addition and multiplication round after every step, they are
+	// not associative: (x + 1) + 1 is x for x = 2^53, x + 2 is not
+	if !integerValued(operand) {
+		return false
 	}
 	a, aok := first.(*NumberExpr)
 	b, bok := second.(*NumberExpr)
